@@ -445,3 +445,50 @@ def U_N_games():
             tl += [[(1, L)], [(1, W)]]
             games.append(dict(rewards=[0, 1, 5, 50, 0, 0], players=[chooser, PR, PR, PR, PR, PR], transition_list=tl, final_states=[W]))
     return games
+
+
+def U_W_games():
+    """slowly mixing stopping games: a probabilistic self-loop with stay probability q very close to 1 on the way to the goal
+    (tens of thousands to hundreds of thousands of sweeps), alone, behind a chain state, or as one of two options of a player;
+    with and without a reward on the looping state"""
+    games = []
+    for q, r in ((0.999, 0), (0.999, 1), (0.9999, 0), (0.9999, 1), (0.99999, 0)):
+        esc = round(1 - q, 7)
+        # 0: loop state; 1: L; 2: W
+        games.append(dict(rewards=[r, 0, 0], players=[PR, PR, PR], transition_list=[[(q, 0), (esc, 2)], [(1, 1)], [(1, 2)]], final_states=[2]))
+        # half of the escapes lose
+        games.append(dict(rewards=[r, 0, 0], players=[PR, PR, PR],
+                          transition_list=[[(q, 0), (esc / 2, 2), (esc / 2, 1)], [(1, 1)], [(1, 2)]], final_states=[2]))
+        # a player chooses between the slow loop (value 1 in the limit) and a coin flip
+        for who in (P1, P2):
+            games.append(dict(rewards=[0, r, 0, 0, 0], players=[who, PR, PR, PR, PR],
+                              transition_list=[[(ACTIONS[0], 1), (ACTIONS[1], 2)], [(q, 1), (esc, 4)], [(0.5, 4), (0.5, 3)], [(1, 3)], [(1, 4)]],
+                              final_states=[4]))
+    return games
+
+
+def U_Z_games():
+    """value 0 by the opponent's choice, not by the graph: a probabilistic focus state whose successors all have value 0 although
+    some of them (Player-2 states that may go to win or to lose) have a path to the goal; decimal probability vectors whose float
+    sum is not exactly 1 in some orders; the focus is the initial state (no solution when pruning) or sits behind a fair coin,
+    optionally with a rewarded self-loop"""
+    games = []
+    vectors = [(0.7, 0.2, 0.1), (0.1, 0.2, 0.7), (0.3, 0.3, 0.4), (0.6, 0.3, 0.1), (0.5, 0.5), (0.9, 0.1), (0.1, 0.9), (1,)]
+    for vec in vectors:
+        for tg in itertools.product("ABLS", repeat=len(vec)):        # A: P2 (win | lose), B: P2 (lose | win), L: lose, S: self
+            if "A" not in tg and "B" not in tg:
+                continue
+            for placement in ("direct", "behindPR"):
+                for rf in (0, 1):
+                    names = (["entry"] if placement != "direct" else []) + ["focus", "A", "B", "V", "L", "W"]
+                    idx = {nme: i for i, nme in enumerate(names)}
+                    sym = {"A": idx["A"], "B": idx["B"], "L": idx["L"], "S": idx["focus"]}
+                    st = {"focus": (PR, rf, [(vec[i], sym[x]) for i, x in enumerate(tg)]),
+                          "A": (P2, 1, [(ACTIONS[0], idx["W"]), (ACTIONS[1], idx["L"])]),
+                          "B": (P2, 0, [(ACTIONS[0], idx["L"]), (ACTIONS[1], idx["W"])]),
+                          "V": (PR, 0, [(1, idx["W"])]), "L": (PR, 0, [(1, idx["L"])]), "W": (PR, 0, [(1, idx["W"])])}
+                    if placement == "behindPR":
+                        st["entry"] = (PR, 0, [(0.5, idx["focus"]), (0.5, idx["V"])])
+                    games.append(dict(rewards=[st[n_][1] for n_ in names], players=[st[n_][0] for n_ in names],
+                                      transition_list=[list(st[n_][2]) for n_ in names], final_states=[idx["W"]]))
+    return games
